@@ -29,6 +29,114 @@ fn pattern(v: &[f32], e: usize, t: usize) -> Option<String> {
     Some(w.windows(2).map(|p| if p[1] > p[0] { '<' } else if p[1] == p[0] { '=' } else { '>' }).collect())
 }
 
+/// Long tolerance windows (T up to 200) whose comparison pattern is a long run of rises
+/// interrupted by isolated single plateaus at every position of the window.
+///
+/// One weight, x = 1, AE objective, plain SGD: the weight grows by exactly the learning rate
+/// per epoch (the training target is far away), the validation loss is |(-S) - w| = S + w with
+/// S = 2^k.  The learning rate is (1 - 1/P) ulp(S), so the recorded single-precision loss rises
+/// by one ulp in all but every P-th epoch, where it repeats its value.  P < T: every window holds
+/// a plateau, training must run to the end; P >= T: the first full window of rises must stop it.
+fn long_windows(seed: u64, idx: u64) -> Out {
+    let mut rng = Rng::stream(seed, "long_windows", idx);
+    let mut out = Out::new(String::new());
+    let t = match idx % 4 {
+        0 => *rng.pick(&[7usize, 8, 9, 15, 16, 17, 31, 32, 33, 63, 64, 65, 66, 127, 128, 129, 130, 191, 192, 193]),
+        _ => rng.range(7, 200),
+    };
+    // period of the plateaus in epochs
+    let p = match (idx / 4) % 4 {
+        0 => t - 1,
+        1 => rng.range(t / 2 + 1, t - 1),
+        2 => rng.range(t, t + 20),
+        _ => rng.range(3, 2 * t),
+    }
+    .max(3);
+    let e_budget = (t + 1 + rng.range(0, 2 * t)).min(420);
+    let k = rng.range(4, 30) as i32;
+    let s_val = 2.0f32.powi(k);
+    let ulp = 2.0f32.powi(k - 23);
+    let lr = ulp * (1.0 - 1.0 / p as f32);
+    let cfg = NetCfg::plain(Sh::Flat(1), vec![LCfg::Dense { n: 1, act: Act::Linear, bias: false, dropout: None }]);
+    let params = vec![P::Dense { w: vec![vec![0.0]], b: None }];
+    let train = DataSet::new(Sh::Flat(1), vec![vec![1.0]], vec![vec![3.0e9]]);
+    let val = DataSet::new(Sh::Flat(1), vec![vec![1.0]], vec![vec![-s_val]]);
+    let desc = format!("long window: T{} E{} plateau period {} S=2^{} lr={:e}", t, e_budget, p, k, lr);
+    let mut net = match build(&cfg, Some(&params)) {
+        Ok(n) => n,
+        Err(m) => {
+            out.inconclusive = Some(format!("cannot build: {}", m));
+            return out;
+        }
+    };
+    net.set_objective(lib_obj(Obj::AE), None);
+    net.set_optimizer(OptCfg::Sgd { lr, decay: None }.build());
+    let (xr, tr) = (train.x_refs(), train.t_refs());
+    let (vxr, vtr) = (val.x_refs(), val.t_refs());
+    let (res, events) = in_cached_pool(2, || guard(|| net.learn(&xr, &tr, Some((&vxr, &vtr, t as i32)), 1, e_budget as i32, None)));
+    let (tl, vl, va) = match res {
+        Ok(r) => r,
+        Err(m) => {
+            out.viol("history:learn-panic", format!("learn panicked: {} [{}]", short(&m, 160), desc), J::s(&desc));
+            return out;
+        }
+    };
+    out.count("learn_runs", 1);
+    out.count("long_window_runs", 1);
+    let n = vl.len();
+    let detail = || J::obj().set("case", J::s(&desc)).set("tolerance", J::Int(t as i64)).set("epochs", J::Int(e_budget as i64)).set("validation_loss", J::f32s(&vl)).set("entries", J::Int(n as i64));
+    let mut steps: Vec<i32> = events
+        .iter()
+        .filter_map(|e| match e {
+            Event::Update { stepnr, .. } => Some(*stepnr),
+            _ => None,
+        })
+        .collect();
+    steps.dedup();
+    let executed = steps.len();
+    out.key = format!("T{} E{} P{} k{}", t, e_budget, p, k);
+    if tl.len() != n || va.len() != n || n > e_budget || n == 0 {
+        out.viol("history:lengths", format!("train {} / validation {} / accuracy {} entries for a budget of {} epochs [{}]", tl.len(), n, va.len(), e_budget, desc), detail());
+        return out;
+    }
+    if executed != n {
+        out.viol("history:epochs-vs-entries", format!("{} epochs were executed (event log) but {} entries were returned [{}]", executed, n, desc), detail());
+    }
+    for e in 1..n {
+        if should_stop(&vl, e, t) {
+            out.viol("history:continued-past-stop", format!("the validation loss strictly increased over the last {} epochs at epoch {} but training continued to epoch {} [{}]", t, e, n, desc), detail());
+            break;
+        }
+    }
+    if n < e_budget && !should_stop(&vl, n, t) {
+        let w = &vl[n - t.min(n)..n];
+        let flats: Vec<usize> = w.windows(2).enumerate().filter(|(_, q)| !(q[1] > q[0])).map(|(i, _)| i).collect();
+        out.viol(
+            "history:stopped-early-without-cause",
+            format!("training stopped after {} of {} epochs although the last {} validation losses do not strictly increase (no rise at window positions {:?}) [{}]", n, e_budget, t, flats, desc),
+            detail(),
+        );
+    }
+    // what the window looked like at the decision points
+    let mut single = 0u64;
+    for e in (t + 1)..=n {
+        let w = &vl[e - t..e];
+        let nonrise: Vec<usize> = w.windows(2).enumerate().filter(|(_, q)| !(q[1] > q[0])).map(|(i, _)| i).collect();
+        if nonrise.len() == 1 {
+            single += 1;
+            if t <= 200 {
+                out.cover("single_plateau_tolerance_x_position", format!("T{}:{}", t, nonrise[0]));
+            }
+        }
+    }
+    out.count("decision_points_whose_window_has_exactly_one_plateau", single);
+    out.cover("long_outcomes", format!("{}:{}", if t < 64 { "T<64" } else if t < 128 { "T64..127" } else { "T>=128" }, if n < e_budget { "stopped-early" } else { "ran-to-completion" }));
+    if idx < 2 {
+        out.sample = Some(detail());
+    }
+    out
+}
+
 const DYADIC: [f32; 8] = [0.25, 0.5, 1.0, 2.0, -0.5, -1.0, 1.5, 0.75];
 
 impl Monitor for C13 {
@@ -36,15 +144,18 @@ impl Monitor for C13 {
         "C13"
     }
     fn gens(&self, tier: Tier) -> Vec<(&'static str, u64)> {
-        vec![("histories", tier.pick(90_000, 1_800_000))]
+        vec![("histories", tier.pick(90_000, 1_800_000)), ("long_windows", tier.pick(6_000, 120_000))]
     }
     fn rule(&self) -> &'static str {
-        "case = one real learn() run of a tiny model (dense(1) or dense(2)->dense(1), linear / ReLU / tanh, bias optional) on 1..3 training and 1..3 validation samples with dyadic inputs, targets, initial weights and learning rates (0.125..2), objective AE or MSE, batch 1..3, so that the validation loss really falls, rises from the first epoch, is V-shaped, oscillates (AE steps of fixed size around the optimum, MSE beyond the stable learning rate) or sits on plateaus of exactly equal values (AE gradient 0 at an exact hit, validation inputs 0, dead ReLU); tolerance T in 1..6, epoch budget E in 1..15, with and (every 5th) without validation data, print frequency None / 1 / 2..4 / 100. The offline checker takes the returned vectors v (validation loss), train, accuracy: |train| = |acc| = |v| = n <= E; no e < n with P(e); n < E implies P(n), where P(e) = e > T and v strictly increasing over the last T recorded epochs; without validation data n = E and the other vectors are empty. Independently the event log must show exactly n distinct update step numbers 1..n. Distinct = distinct (T, E, loss vector) triples; floors: all 13 window comparison patterns for T <= 3 observed at decision points, early stops and full-length runs for every T."
+        "case = one real learn() run of a tiny model (dense(1) or dense(2)->dense(1), linear / ReLU / tanh, bias optional) on 1..3 training and 1..3 validation samples with dyadic inputs, targets, initial weights and learning rates (0.125..2), objective AE or MSE, batch 1..3, so that the validation loss really falls, rises from the first epoch, is V-shaped, oscillates (AE steps of fixed size around the optimum, MSE beyond the stable learning rate) or sits on plateaus of exactly equal values (AE gradient 0 at an exact hit, validation inputs 0, dead ReLU); tolerance T in 1..6, epoch budget E in 1..15, with and (every 5th) without validation data, print frequency None / 1 / 2..4 / 100. The offline checker takes the returned vectors v (validation loss), train, accuracy: |train| = |acc| = |v| = n <= E; no e < n with P(e); n < E implies P(n), where P(e) = e > T and v strictly increasing over the last T recorded epochs; without validation data n = E and the other vectors are empty. Independently the event log must show exactly n distinct update step numbers 1..n. long_windows: tolerance 7..200 (the values around 16, 32, 64, 128, 192 over-represented), budget T+1..3T+1; one weight, x = 1, AE, SGD with learning rate (1 - 1/P) ulp(S): the weight rises by the learning rate every epoch and the validation loss S + w (S = 2^k) recorded in single precision rises by one ulp except for an isolated repeat every P-th epoch, so the tolerance window is a run of rises with a single plateau that visits every window position as the window slides (P < T: training must run to the end; P >= T: it must stop at the first full window of rises, never before epoch T+1); same offline checker; evidence lists the (T, plateau position) pairs seen at decision points. Distinct = distinct (T, E, loss vector) triples; floors: all 13 window comparison patterns for T <= 3 observed at decision points, early stops and full-length runs for every T."
     }
     fn assumptions(&self) -> Vec<&'static str> {
         vec!["no value is injected into the library: trajectories come from real training", "NaN validation losses are not generated (comparisons with NaN are unspecified)"]
     }
     fn run(&self, gen: &str, seed: u64, idx: u64, _tier: Tier) -> Out {
+        if gen == "long_windows" {
+            return long_windows(seed, idx);
+        }
         let mut rng = Rng::stream(seed, gen, idx);
         let t = 1 + (idx % 6) as usize;
         let e_budget = 1 + ((idx / 6) % 15) as usize;
@@ -210,5 +321,8 @@ impl Monitor for C13 {
         let outcomes = agg.set_size("outcome_per_tolerance");
         agg.require(outcomes >= 12, format!("only {} of 12 (tolerance, outcome) combinations observed", outcomes));
         agg.require(agg.count("learn_runs") >= 3000, "too few learn runs".into());
+        agg.require(agg.count("long_window_runs") >= 1000, "too few long-window runs".into());
+        agg.require(agg.set_size("long_outcomes") == 6, format!("long windows: only {} of 6 (tolerance class, outcome) combinations", agg.set_size("long_outcomes")));
+        agg.require(agg.set_size("single_plateau_tolerance_x_position") >= 5000, format!("only {} (tolerance, plateau position) pairs observed", agg.set_size("single_plateau_tolerance_x_position")));
     }
 }
